@@ -66,6 +66,68 @@ SUBCOMMANDS = [
 ]
 
 
+def lock_windows(dud, base, R):
+    """every file-system mutating call a lock-taking command issues inside the project or its cache happens while `.dud/lock`
+    exists (ptrace: tools/sysstep) — in particular both halves of `dud pull` (fetch, then checkout in the same process)"""
+    stepper = vlib.build_sysstep()
+    viol = []
+    k = 0
+    for args, prep in ((["commit"], "fresh"), (["checkout"], "wiped"), (["checkout", "--copy"], "wiped"), (["pull"], "wiped-cache"),
+                       (["fetch"], "wiped-cache"), (["push"], "committed"), (["run"], "fresh"), (["stage", "add", "t.yaml"], "committed"),
+                       (["pull", "s.yaml"], "wiped-cache")):
+        for where in ("root", "sub"):
+            k += 1
+            root, env = mkproject(dud, base, "w%d" % k)
+            os.makedirs(os.path.join(root, "data", "deep"))
+            for j in range(5):
+                open(os.path.join(root, "data", "f%d.txt" % j), "w").write("data %d" % j)
+            open(os.path.join(root, "data", "deep", "g.txt"), "w").write("g")
+            open(os.path.join(root, "s.yaml"), "w").write("command: echo hi > data/f0.txt\noutputs:\n  data:\n    is-dir: true\n")
+            open(os.path.join(root, "t.yaml"), "w").write("outputs:\n  other.txt: {}\n")
+            open(os.path.join(root, "other.txt"), "w").write("o")
+            q = dict(cwd=root, env=env, stdout=subprocess.DEVNULL, stderr=subprocess.DEVNULL)
+            subprocess.run([dud, "stage", "add", "s.yaml"], **q)
+            if prep != "fresh":
+                subprocess.run([dud, "commit"], **q)
+                subprocess.run([dud, "push"], **q)
+            if prep.startswith("wiped"):
+                shutil.rmtree(os.path.join(root, "data"))
+            if prep == "wiped-cache":
+                cache = os.path.join(root, ".dud", "cache")
+                for hh in os.listdir(cache):
+                    shutil.rmtree(os.path.join(cache, hh))
+            cwd = root if where == "root" else os.path.join(root, "sub", "dir")
+            a = [os.path.relpath(os.path.join(root, x), cwd) if x.endswith(".yaml") else x for x in args]
+            log = os.path.join(base, "lockwin-%d.log" % k)
+            p = subprocess.run([stepper, "-o", log, "--", dud] + a, cwd=cwd, env=env, stdout=subprocess.PIPE, stderr=subprocess.PIPE, timeout=120)
+            lock = os.path.realpath(os.path.join(root, ".dud", "lock"))
+            rootr = os.path.realpath(root)
+            held = False
+            outside = []
+            for line in open(log, errors="replace").read().splitlines():
+                parts = line.split("\t")
+                if len(parts) < 3 or not parts[0].isdigit():
+                    continue
+                name, p1 = parts[1], parts[2]
+                p2 = parts[3] if len(parts) > 3 else ""
+                full = p1 if p1.startswith("/") else os.path.normpath(os.path.join(rootr, p1))
+                if os.path.realpath(os.path.dirname(full)) + "/" + os.path.basename(full) == lock or full.endswith("/.dud/lock"):
+                    if name in ("create_excl", "open_w", "create_trunc"):
+                        held = True
+                    elif name == "unlink":
+                        held = False
+                    continue
+                touched = [x for x in (full, p2 if p2.startswith("/") else (os.path.normpath(os.path.join(rootr, p2)) if p2 and name in ("rename", "symlink", "link") else ""))
+                           if x and (x == rootr or x.startswith(rootr + "/"))]
+                if touched and not held:
+                    outside.append("%s %s" % (name, os.path.relpath(touched[0], rootr)))
+            R.count("lock-window-%s-%s" % (" ".join(args), where), True)
+            if outside:
+                viol.append(("unlocked-mutation", "`dud %s` from %s (exit %d) issued %d mutating call(s) inside the project while .dud/lock did not exist, e.g. %s "
+                             "— another dud can get past the lock at that moment" % (" ".join(a), where, p.returncode, len(outside), outside[:3])))
+    return viol
+
+
 def matrix(dud, drv, base, R):
     """every subcommand x {root, nested dir} x {success, failure}: the lock must be gone afterwards"""
     prelock_n = [0]
@@ -194,6 +256,7 @@ def main(tier, replay=None):
             if v:
                 R.violation(dict(kind="property-violated-on-implementation", scenario="%d concurrent invocations" % n, violations=v, detail=info))
     viol, diverged = matrix(dud, drv, base, R)
+    viol = viol + lock_windows(dud, base, R)
     unknown = []
     for tag, text in viol:
         kf = None
